@@ -18,6 +18,15 @@ pub(crate) fn read_type(src: &mut &[u8]) -> io::Result<Option<Type>> {
     let mut len = usize::from(encoding >> 4);
 
     if len == MAX_TYPE_LEN {
+        // The length is a typed integer scalar. Its own descriptor must not ask for another
+        // length value: `read_value` would call back into `read_type` once per such byte.
+        if src.first().is_some_and(|b| usize::from(b >> 4) == MAX_TYPE_LEN) {
+            return Err(io::Error::new(
+                io::ErrorKind::InvalidData,
+                "invalid length value",
+            ));
+        }
+
         let value = read_value(src)?;
 
         len = match value.and_then(|v| v.as_int()) {
@@ -56,6 +65,20 @@ fn get_u8(src: &mut &[u8]) -> io::Result<u8> {
 #[cfg(test)]
 mod tests {
     use super::*;
+
+    #[test]
+    fn test_read_type_with_nested_length_descriptors() {
+        // 0xf1 = (len >= 15, Int8); each one used to add two stack frames
+        let data = vec![0xf1; 1 << 20];
+        let mut src = &data[..];
+        assert!(matches!(
+            read_type(&mut src),
+            Err(e) if e.kind() == io::ErrorKind::InvalidData
+        ));
+
+        let mut src = &[0xf1, 0xf1, 0x11, 0x01, 0x05][..];
+        assert!(read_type(&mut src).is_err());
+    }
 
     #[test]
     fn test_read_type() -> io::Result<()> {
